@@ -85,7 +85,9 @@ theorem chunk_size_overflow (p : DupPolicy) (ids : List (Event Nat Nat)) (per : 
 /-- **`jobResult` is what `write_events` reports** (the callback view used by the
     submit-loop model is tied to the writer): for a job that does not fail,
     the count is the number of events written and `closes` holds exactly when
-    the result is not the plain return value `per` (C05 `job_result_is_write_events`) -/
+    the result is not the plain return value `per`.  (C05
+    `job_result_is_write_events` is the same statement, listed there as the tie
+    between its oracle `failingJob` and the writer.) -/
 theorem job_result_is_write_events (p : DupPolicy) (ids : List (Event Nat Nat)) (per j : Nat)
     (hp1 : 1 ≤ per) (hU : per < 4294967296)
     (hacc : failingJob Generated.pyMagic Generated.pyVersion p ids per j = false) :
@@ -165,5 +167,41 @@ example :
               encodeChunk Generated.pyMagic Generated.pyVersion [⟨[3], [0]⟩]], 5) :=
   conversion_files .dedup _ [⟨[0], [0]⟩, ⟨[1], []⟩, ⟨[2], [1]⟩, ⟨[0], [1]⟩, ⟨[3], [0]⟩] (by decide +kernel) 2
     (by decide) (by decide)
+
+/-- `writeEvents_window` ITSELF applied: job 1 of 3 events, 2 per file, policy
+    `True` — the partly filled last file holds the de-duplicated third event and
+    reads back as it -/
+example : ∃ r, writeEvents Generated.pyMagic Generated.pyVersion .dedup [⟨[1, 1], [3]⟩, ⟨[4], []⟩, ⟨[5, 5], [6]⟩]
+        (1 * 2) ((1 + 1) * 2)
+      = (some (encodeChunk Generated.pyMagic Generated.pyVersion [⟨[5], [6]⟩]), r) ∧ (r = .ok 1 ∨ r = .stopped 1) ∧
+    decodeChunkPy Generated.pyMagic Generated.pyVersion
+      (encodeChunk Generated.pyMagic Generated.pyVersion [⟨[5], [6]⟩]) = .ok [⟨[5], [6]⟩] :=
+  writeEvents_window .dedup [⟨[1, 1], [3]⟩, ⟨[4], []⟩, ⟨[5, 5], [6]⟩] [⟨[5], [6]⟩] 2 1 (by decide)
+    (by decide +kernel) (by decide +kernel) (wf32_of_bound 100 (by decide) _ (by decide))
+
+/-- `job_result_is_write_events` ITSELF applied to that file: job 0 (full window:
+    `.ok 2`, does not close), job 1 (one event left: `StopIteration`, closes) -/
+example :
+    (writeEvents Generated.pyMagic Generated.pyVersion .dedup [⟨[1, 1], [3]⟩, ⟨[4], []⟩, ⟨[5, 5], [6]⟩] (0 * 2)
+      ((0 + 1) * 2)).2 = .ok 2 ∧
+    (writeEvents Generated.pyMagic Generated.pyVersion .dedup [⟨[1, 1], [3]⟩, ⟨[4], []⟩, ⟨[5, 5], [6]⟩] (1 * 2)
+      ((1 + 1) * 2)).2 = .stopped 1 ∧
+    (jobResult 3 2 1).closes = true := by
+  have h0 := (job_result_is_write_events .dedup [⟨[1, 1], [3]⟩, ⟨[4], []⟩, ⟨[5, 5], [6]⟩] 2 0 (by decide) (by decide)
+    (by decide +kernel)).1
+  have h1 := job_result_is_write_events .dedup [⟨[1, 1], [3]⟩, ⟨[4], []⟩, ⟨[5, 5], [6]⟩] 2 1 (by decide) (by decide)
+    (by decide +kernel)
+  refine ⟨h0.trans (by decide), h1.1.trans (by decide), h1.2.mpr ?_⟩
+  rw [h1.1]
+  decide
+
+/-- `chunk_size_overflow` ITSELF applied: `events_per_file = 2³²` — the conversion
+    raises `OverflowError` and so does every single job, also on an empty file -/
+example :
+    makeChunks Generated.pyMagic Generated.pyVersion .keep [⟨[1], [2]⟩] 4294967296 = .error .other ∧
+    writeEvents Generated.pyMagic Generated.pyVersion .keep [] (3 * 4294967296) ((3 + 1) * 4294967296)
+      = (none, .overflow) :=
+  ⟨(chunk_size_overflow .keep [⟨[1], [2]⟩] 4294967296 (by decide)).1,
+   (chunk_size_overflow .keep [] 4294967296 (by decide)).2 3⟩
 
 end Pyndl.C04
